@@ -1564,13 +1564,19 @@ ASMJIT_FAVOR_SPEED Error BaseRAPass::bin_pack(RegGroup group) noexcept {
       else if (parent_reg->has_home_reg_id()) {
         uint32_t consecutive_id = parent_reg->home_reg_id() + 1;
 
-        // NOTE: We don't support wrapping. If this goes beyond all allocable registers there is something wrong.
+        // NOTE: We don't support wrapping. If this goes beyond all allocable registers the hint cannot be satisfied
+        // (conflicting register lists can order the same registers differently) - it's only a hint, so allocate the
+        // register like a lead in that case, the local allocator will move it when the list is used.
         if (consecutive_id > 31 || !Support::bit_test(available_regs, consecutive_id)) {
-          return make_error(Error::kConsecutiveRegsAllocation);
+          phys_regs = available_regs & work_reg->preferred_mask();
+          if (!phys_regs) {
+            phys_regs = available_regs & work_reg->consecutive_mask();
+          }
         }
-
-        work_reg->set_hint_reg_id(consecutive_id);
-        phys_regs = Support::bit_mask<uint32_t>(consecutive_id);
+        else {
+          work_reg->set_hint_reg_id(consecutive_id);
+          phys_regs = Support::bit_mask<uint32_t>(consecutive_id);
+        }
       }
 
       while (phys_regs) {
